@@ -70,9 +70,10 @@ class _CaseFailed(Exception):
     pass
 
 
-class CaseTimeout(Exception):
-    """Raised inside a worker by SIGALRM when one case runs for too long; property modules that catch Exception
-    around the code under test report it under their own signature (type name CaseTimeout)."""
+class CaseTimeout(BaseException):
+    """Raised by the per-case alarm.  A BaseException, so that neither the code under test nor the `except Exception`
+    clauses of the checks turn it into an ordinary failure: it reaches the runner, which retries the case with ten times the
+    allowance before anything is reported (see _worker)."""
 
 
 def _on_alarm(_signum, _frame):
